@@ -126,6 +126,28 @@ EXTRA = {
 }
 
 # rule families added in round 6 / batch 5
+# rules added in round 8 (supporting cast outside the anchored functions) and the analysis-only pre-passes
+EXTRA3 = {
+    "C01": "grid-family dispatch reaches the anchored locator for every grid of the family (EXHAUST)",
+    "C03": "scalar-argument decorator passes angle arrays through unchanged (WRAP), no matrix product over grid-shaped angle arrays (SHAPE:elementwise)",
+    "C04": "sharp/boolean image of every renderer uses the class' own interface (SHARP, WIDTH, CAST composed), writes through aliases of the image incl. out= (EFFECT)",
+    "C06": "track accessors start/end/first/last are the first/last appended element (ACCESSOR)",
+    "C07": "track accessors start/end/first/last are the first/last appended element (ACCESSOR)",
+    "C08": "constructor keeps its own list of times (FRESH), record fields declared as doubles (LAYOUT:field-types), width setter tests by identity (NONETEST)",
+    "C09": "no arithmetic on a worker count that is None for 'auto' (PARMAP:none-arithmetic), WRAP, SHAPE:elementwise",
+    "C10": "record fields declared as doubles (LAYOUT:field-types), no double application of a sort permutation (INVPERM)",
+    "C11": "record fields declared as doubles (LAYOUT:field-types), width setter stores 0 as 0 (NONETEST on value-or-default)",
+    "C12": "record fields declared as doubles (LAYOUT:field-types)",
+    "C13": "scalar-argument decorator (WRAP), no matrix product over angle arrays (SHAPE:elementwise)",
+    "C14": "constructor order and own times list (FRESH), result dtype independent of the image dtype (DTYPE)",
+    "C15": "writes through aliases of the shared image incl. out= keywords (EFFECT)",
+    "C16": "no memoised helper handing out shared arrays (STATELESS:memoised), casts derived from the image dtype (DTYPE)",
+    "C17": "STATELESS:memoised, DTYPE, removal-loop shape of the duplicate filter composed in (GUARDSHAPE, EFFECT, PAIR)",
+    "C18": "no module-level state on the way from the image to the droplets (STATELESS over locate_droplets)",
+    "C19": "both arms of refine_droplets hand out refine_droplet's own results (PARMAP composed)",
+    "C20": "an explicit dtype is applied before the members are added (REJECT:ctor-dtype)",
+}
+ALL_SUFFIX = "; all rules run on the pre-normalised program (dropstat/prenorm.py: spelling-level normal forms; dropstat/localroles.py: canonical local names)"
 EXTRA2 = {
     'C01': "surface-distance and symmetry of the duplicate filter's distance matrix (SURFACE, SYMM)", 'C04': 'levels defined for an empty fit region (LEVELS:empty-region), feasibility for both signs of the intensity range (FEASIBLE, min/max resolved per case)',
     'C06': 'INDEX violation when the link indices do not come from the arg-min',
@@ -158,7 +180,7 @@ def main():
             "engine": "dropstat",
             "level_claimed": {"category": "other", "text": d["text"], "design_ref": d["ref"]},
             "level_note": d["note"],
-            "technique": d["technique"] + ("; " + EXTRA[pid] if pid in EXTRA else "") + ("; " + EXTRA2[pid] if pid in EXTRA2 else ""),
+            "technique": d["technique"] + ("; " + EXTRA[pid] if pid in EXTRA else "") + ("; " + EXTRA2[pid] if pid in EXTRA2 else "") + ("; " + EXTRA3[pid] if pid in EXTRA3 else "") + ALL_SUFFIX,
         })
     na = list(NOT_APPLICABLE)
     claimed = {c["property_id"] for c in checks}
